@@ -26,6 +26,7 @@ LEVEL = {
     "C11": ("Bounded model checking with a symbolic kill point: the real state-file writers (rule history, file-state table) killed before/after any file-system mutation or inside a write, then the real readers: never an error; directory::init from every partial ruler directory; cache content-addressed and nothing lost after every mutation of a rule step.", "A.3/C11"),
     "C12": ("Solver-checked path-forking interpretation of the sorter's MIR (rules_to_frame_buffer, sort_once, get_result, topological_sort, topological_sort_all) with SYMBOLIC names: for every enumerated shape (number of rules, targets and sources per rule) every pattern of equalities and order among target, source and goal names is decided by z3 forks, and on each the result is compared with an independent oracle (duplicate target, goal lookup, reachability, cycles by transitive closure, plan membership, producer-before-consumer, exact source binding, canonical order, independence of input order).", "A.3/C12"),
     "C13": ("Bounded model checking: for two symbolic parser-producible rules, the byte streams hashed into their identities are equal exactly when sorted targets, sorted sources and the command sequence are equal.", "3/C13"),
+    "C14": ("Solver-decided symbolic interpretation of the MIR of rule::parse and of bundle.rs (parse_lines, parse_recusrive_helper, add_to_nodes, NumberedIndentedLine::new, get_empty_line_indices, get_path_strings) on SYMBOLIC lines (leading tabs and rest as z3 integers): for every file of up to 9 (12) lines and every section of up to 4 (5) lines, the answer equals an independent reference reading of the format: sections, command lines and rule order; error kind and 1-based line; bundles: each entry once, repeats merged, contradictions, wrong indent, empty lines, canonical order; no panic.", "A.5"),
     "C15": ("(a) solver-checked over ALL 256-bit values / all strings on the MIR of encode62/decode62 (path-wise symbolic execution, z3): 43 alphabet characters, value preserved, length/alphabet/overflow rejection, hence a bijection; (b) bounded model checking of from_file with symbolic short reads: the digest receives exactly the file's bytes.", "3/C15"),
     "C17": ("Bounded model checking of the real RuleHistory::insert + FileStateVec::compare (differing indices exactly, in order; record unchanged) and of the real rebuild_node around it (indices mapped to the right target paths; Ok iff nothing differs).", "3/C17"),
     "C18": ("Bounded model checking under the distinct-writes clock: every hash the real code takes through the mtime shortcut (re-hash tail, post-command refresh, resolve) equals the hash of the file's content, and every table entry handed back is truthful for every file carrying its mtime.", "3/C18"),
@@ -33,7 +34,6 @@ LEVEL = {
 }
 
 NA = {
-    "C14": "not applicable within reach: the parser is the same kind of heap-heavy String/BTreeMap code as the sorter, on which CBMC exhausts memory; no encoding within the resource caps (DESIGN A.3)",
     "C16": "not applicable within reach: bincode/serde visitor machinery under CBMC runs out of memory (14 GB) on a one-entry RuleHistory round trip (DESIGN A.3)",
     "C19": "not applicable: the endpoints are closures inside a tokio/warp async runtime served over a socket; neither Kani (no async runtime, no sockets) nor a MIR translation of warp/hyper is within reach (DESIGN 3/C19)",
 }
@@ -54,6 +54,9 @@ def main():
         if e.get("mir") == "sorter":
             eng = "mir-smt"
             tech = "SMT (z3) decided path-forking symbolic interpretation of rustc's MIR for sort.rs with symbolic rule names, shapes enumerated"
+        elif e.get("mir") == "parser":
+            eng = "mir-smt"
+            tech = "SMT (z3) decided path-forking symbolic interpretation of rustc's MIR for rule.rs / bundle.rs on symbolic lines (leading tabs, rest), file and section lengths enumerated; classes re-run as concrete text on the real parser"
         elif e.get("mir") == "proto":
             if not e["quick"]:
                 eng = "mir-smt"
